@@ -298,7 +298,14 @@ def twin_part(check):
                                                                                           else "local", "; ".join(errs)),
                                             case=chosen[k], impl={"rustc": pk.stderr[-2500:]}, failing_input=True)
                             return
-                    raise InfraError("C19 twin crate: annotated build fails but no single scenario does:\n" + p1.stderr[-3000:])
+                    # each annotated item compiles on its own, the annotated program as a whole does not (the un-annotated one does):
+                    # the macro makes the items depend on each other
+                    errs = [l for l in p1.stderr.split("\n") if l.startswith("error")][:3]
+                    check.saw(("twin-whole", rnd), nontrivial=True)
+                    check.violation("the program whose macro_rules!-generated items carry #[typeshare] does not compile although every item "
+                                    "compiles alone and the un-annotated program compiles: %s" % "; ".join(errs),
+                                    case={"scenarios": chosen, "main.rs": main}, impl={"rustc": p1.stderr[-2500:]}, failing_input=True)
+                    return
                 lines = {}
                 for l in p1.stdout.split("\n"):
                     m = re.match(r"(\d+)\.(\d+) (plain|annot) (.*)$", l)
